@@ -42,10 +42,23 @@ EXTRA_DATES = [(1000, 1, 1), (1582, 10, 15), (1899, 12, 31), (1900, 2, 28),
                (1964, 12, 31), (2065, 1, 1), (1965, 1, 1), (2064, 12, 31)]
 
 
-def make_fileset(tpl, info_via, handler_plan):
+def make_fileset(tpl, info_via, handler_plan, late=None):
     from typhon.files import FileHandler, FileInfo, FileSet
     cov = tpl["coverage_s"]
     kwargs = {}
+    arg = G.user_placeholder_arg(tpl)
+    if late is not None and arg:
+        # history: the fileset parses a name with the default placeholders
+        # first, the user's regexes / value lists are set afterwards
+        fileset = make_fileset(dict(tpl, user={
+            k: {"kind": "default", "regex": None, "values": v["values"]}
+            for k, v in tpl["user"].items()}), info_via, handler_plan)
+        try:
+            fileset.parse_filename(late)
+        except ValueError:
+            pass
+        fileset.set_placeholders(**arg)
+        return fileset
     if info_via != "filename":
         def info(file_info):
             plan = handler_plan
@@ -89,8 +102,11 @@ def check_names(case, ctx):
     for per in case["periods"]:
         s, e, attrs = per["s"], per["e"], per["attrs"]
         plan = per["handler"]
-        fileset = make_fileset(tpl, info_via, plan)
         expected_name = G.format_path(tpl, s, e, attrs, "", "/data/vp")
+        fileset = make_fileset(tpl, info_via, plan,
+                               expected_name if per.get("late") else None)
+        if per.get("late") and tpl["user"]:
+            ctx.label("placeholders-set-late")
         where = lambda: "template=%r s=%s e=%s attrs=%r coverage=%r via=%s " \
             "handler=%r" % (fileset.path, s, e, attrs, cov, info_via, plan)
         times_arg = s if (s == e and per["single"]) else (s, e)
@@ -243,6 +259,23 @@ def mutate_name(tpl, name, s, e, attrs, mut):
         return name + mut["text"]
     if kind == "junk-before":
         return "x" + name
+    if kind == "bad-user-value":
+        strict = [(tok, a, b) for tok, a, b in spans
+                  if tok[0] == "ph" and tok[1] in tpl["user"]]
+        if not strict:
+            return None
+        tok, a, b = strict[mut["index"] % len(strict)]
+        spec = tpl["user"][tok[1]]
+        if spec["kind"] == "list":
+            bad = "Zq9"
+            if bad in spec["values"]:
+                return None
+        else:
+            bad = {r"\d{5}": "1234x", r"[A-Z]{2}": "a1",
+                   r"[a-z]\d": "Q7"}.get(spec["regex"])
+            if bad is None:
+                return None
+        return prefix + rel[:a] + bad + rel[b:]
     if kind == "dot-to-char":
         dots = [a + i for tok, a, b in spans if tok[0] == "lit"
                 for i, ch in enumerate(tok[1]) if ch == "."]
@@ -351,11 +384,12 @@ def name_cases(draw):
         muts = draw(st.lists(st.fixed_dictionaries({
             "kind": st.sampled_from(["digit-to-letter", "drop-digit",
                                      "junk-after", "junk-before",
-                                     "dot-to-char"]),
+                                     "dot-to-char", "bad-user-value"]),
             "index": st.integers(0, 20), "offset": st.integers(0, 8),
             "text": st.sampled_from(["~", ".bak", "0", "x"])}), max_size=2))
         periods.append({"s": s, "e": e, "attrs": attrs, "handler": hplan,
-                        "single": draw(st.booleans()), "mutations": muts})
+                        "single": draw(st.booleans()), "mutations": muts,
+                        "late": draw(st.integers(0, 3)) == 0})
     return {"template": tpl, "info_via": info_via, "periods": periods}
 
 
